@@ -50,6 +50,29 @@ def _recv(fd):
     return json.loads(bytes(buf))
 
 
+def _private_dirs(tag):
+    """Every child gets its own empty HOME / cache / temp directories under the invocation's scratch space: a tree
+    that writes to disk cannot leak state into the reference evaluations, and what it wrote can be counted."""
+    base = os.environ.get("HTSIM_PYC")
+    if not base:
+        return None
+    import tempfile
+    d = tempfile.mkdtemp(prefix=f"home-{tag}-", dir=base)
+    for k in ("HOME", "XDG_CACHE_HOME", "XDG_CONFIG_HOME", "XDG_DATA_HOME", "TMPDIR"):
+        os.environ[k] = d
+    tempfile.tempdir = None
+    return d
+
+
+def _count_and_remove(d):
+    if not d:
+        return 0
+    import shutil
+    n = sum(len(files) for _, _, files in os.walk(d))
+    shutil.rmtree(d, ignore_errors=True)
+    return n
+
+
 def _limit_child():
     try:
         import resource
@@ -72,9 +95,12 @@ def oracle_eval_fresh_fork(req):
             os.close(r)
             _limit_child()
             signal.alarm(RUN_TIMEOUT_S)
+            home = _private_dirs("oracle")
             pristine.import_library_checked()
             from .evalcore import evaluate
-            _send(w, evaluate(req))
+            resp = evaluate(req)
+            resp["files_written"] = _count_and_remove(home)
+            _send(w, resp)
         except BaseException:
             try:
                 _send(w, {"harness_error": traceback.format_exc()[-2000:]})
@@ -140,9 +166,11 @@ def run_job(job):
                     raise HarnessError(resp["worker_error"])
                 return resp
 
+            home = None if job.get("keep_home") else _private_dirs("run")
             pristine.import_library_checked()
             from .runchild import child_main
             report = child_main(job, ask if job.get("judge", True) else None)
+            report["files_written"] = _count_and_remove(home)
             _send(c2w_w, {"type": "done", "report": report})
         except BaseException:
             try:
